@@ -24,6 +24,9 @@ type BlockCtx struct {
 	RevV2FC map[types.FileContractID]types.V2FileContract
 	// AllowStaleResolve lets a v2 contract revised in this block be resolved in this block (C07 model).
 	AllowStaleResolve bool
+	// ExpectReject is set by menu actions that are legal only under a legacy rule: the explorer does not treat the
+	// block's rejection as a violation (its acceptance is judged by the state oracles).
+	ExpectReject bool
 	RevisedInBlock    map[types.Hash256]bool
 }
 
@@ -724,6 +727,18 @@ func V2Revise(kind string) Action {
 		case "pay":
 			rev.RenterOutput.Value = rev.RenterOutput.Value.Sub(types.Siacoins(1))
 			rev.HostOutput.Value = rev.HostOutput.Value.Add(types.Siacoins(1))
+		case "refund":
+			// host -> renter, leaving the host output BELOW the unchanged missed host value (an expiry would then pay
+			// more than the contract holds); must be rejected from the ephemeral-output height on
+			if rev.HostOutput.Value.Cmp(rev.MissedHostValue) < 0 || rev.MissedHostValue.Cmp(types.Siacoins(1)) < 0 {
+				return false
+			}
+			if bc.H >= w.Net.HardforkV2.EphemeralOutputHeight {
+				bc.ExpectReject = true
+			}
+			d := rev.HostOutput.Value.Sub(rev.MissedHostValue).Add(types.Siacoins(1))
+			rev.HostOutput.Value = rev.HostOutput.Value.Sub(d)
+			rev.RenterOutput.Value = rev.RenterOutput.Value.Add(d)
 		case "risk":
 			if rev.MissedHostValue.Cmp(types.Siacoins(1)) >= 0 {
 				rev.MissedHostValue = rev.MissedHostValue.Sub(types.Siacoins(1))
